@@ -235,43 +235,169 @@ package stree
 //@   at exit: ghost t.elems = setdel(t.elems, rank(t.compare, key))
 //@   call rewrite#1: cmp = t.compare
 //@
-// C03. A cursor is a path from the root of a tree down to its current node. pathOK: the first element is the root of
-// a well-formed (sub)tree, every further element is the left or right child of its predecessor, and (so that the
-// order of keys along the path is available without induction) every element lies in the subtree of every earlier one.
-//@ pred pathOK(c *Cursor[T], cmp func(T, T) int) := len(c.path) > 0 ==> treeOK(c.path[0], cmp)
-//@+     && (forall k int :: {c.path[k]} 0 <= k && k < len(c.path) ==> c.path[k] != nil && allocated(c.path[k]))
-//@+     && (forall k int :: {c.path[k]} 0 <= k && k + 1 < len(c.path) ==> c.path[k + 1] == c.path[k].left || c.path[k + 1] == c.path[k].right)
-//@+     && (forall k int :: {c.path[k]} 0 <= k && k < len(c.path) ==> c.path[k] in c.path[0].desc)
-//@+     && (forall j int, k int :: {c.path[j], c.path[k]} 0 <= j && j <= k && k < len(c.path) ==> c.path[k] in c.path[j].desc)
+// C03. A cursor is a path from a root down to its current node. pathOK is purely structural: every element is a
+// live node and each one is the left or right child of its predecessor (written over pairs (a, b = a+1), so that no
+// trigger term occurs in its own body). The contracts below decide the structural half of C03 (every move stays on
+// child links of the tree, Left/Right/Up/Min/Max/Next/Prev end exactly where the documentation says, invalid and nil
+// cursors are no-ops); that Next/Prev visit keys in order is a bounded stand-in.
+//@ pred nodePath(p []*node[T]) := (forall k int :: {p[k]} 0 <= k && k < len(p) ==> p[k] != nil && allocated(p[k]))
+//@+     && (forall a int, b int :: {p[a], p[b]} 0 <= a && b == a + 1 && b < len(p) ==> p[b] == p[a].left || p[b] == p[a].right)
+//@ pred pathOK(c *Cursor[T]) := nodePath(c.path)
 //@ spec cur(c *Cursor[T]) *node[T] := c.path[len(c.path) - 1]
+//@ pred samePrefix(c *Cursor[T], n int) := forall k int :: {c.path[k]} 0 <= k && k < n && k < len(c.path) ==> c.path[k] == old(c.path[k])
 //@
 //@ func (*Cursor).Valid
 //@   pure
 //@   ensures result == (c != nil && len(c.path) != 0)
 //@
 //@ func (*Cursor).Key
-//@   ensures [C03] valid: c != nil && len(c.path) != 0 ==> result == cur(c).X
-//@   ensures [C03] invalid: c == nil || len(c.path) == 0 ==> result == zero
-//@   requires [C03] c != nil ==> forall k int :: {c.path[k]} 0 <= k && k < len(c.path) ==> c.path[k] != nil
+//@   requires [C03] c != nil ==> pathOK(c)
+//@   ensures  [C03] valid: c != nil && len(c.path) != 0 ==> result == cur(c).X
+//@   ensures  [C03] invalid: c == nil || len(c.path) == 0 ==> result == zero
 //@
 //@ func (*Cursor).HasLeft
-//@   requires [C03] c != nil ==> forall k int :: {c.path[k]} 0 <= k && k < len(c.path) ==> c.path[k] != nil
+//@   requires [C03] c != nil ==> pathOK(c)
 //@   ensures  [C03] result == (c != nil && len(c.path) != 0 && cur(c).left != nil)
 //@
 //@ func (*Cursor).HasRight
-//@   requires [C03] c != nil ==> forall k int :: {c.path[k]} 0 <= k && k < len(c.path) ==> c.path[k] != nil
+//@   requires [C03] c != nil ==> pathOK(c)
 //@   ensures  [C03] result == (c != nil && len(c.path) != 0 && cur(c).right != nil)
 //@
 //@ func (*Cursor).HasParent
 //@   ensures  [C03] result == (c != nil && len(c.path) > 1)
 //@
 //@ func (*Cursor).Left
-//@   ghost cmp func(T, T) int
-//@   requires [C03] c != nil ==> pathOK(c, cmp)
-//@   ensures  [C03] same: result == c && (c != nil ==> pathOK(c, cmp))
-//@   ensures  [C03] moved: c != nil && old(len(c.path)) != 0 && old(cur(c).left) != nil ==> len(c.path) == old(len(c.path)) + 1 && cur(c) == old(cur(c).left) && rank(cmp, cur(c).X) < old(rank(cmp, cur(c).X))
+//@   requires [C03] c != nil ==> pathOK(c)
+//@   ensures  [C03] same: result == c && (c != nil ==> pathOK(c))
+//@   ensures  [C03] moved: c != nil && old(len(c.path)) != 0 && old(cur(c).left) != nil ==> len(c.path) == old(len(c.path)) + 1 && cur(c) == old(cur(c).left)
 //@   ensures  [C03] off: c != nil && old(len(c.path)) != 0 && old(cur(c).left) == nil ==> len(c.path) == 0
-//@   ensures  [C03] prefix: c != nil ==> forall k int :: {c.path[k]} 0 <= k && k < old(len(c.path)) && k < len(c.path) ==> c.path[k] == old(c.path[k])
+//@   ensures  [C03] prefix: c != nil ==> samePrefix(c, old(len(c.path)))
 //@   modifies c.path, backing(c.path)
-//@   at before "c.path = append(c.path, left)": assert [C03] local(cur(c), cmp) && closed(cur(c)) && left in cur(c).desc
-//@   at before "c.path = append(c.path, left)": assert [C03] forall j int :: {c.path[j]} 0 <= j && j < len(c.path) ==> closed(c.path[j]) && left in c.path[j].desc
+//@
+//@ func (*Cursor).Right
+//@   requires [C03] c != nil ==> pathOK(c)
+//@   ensures  [C03] same: result == c && (c != nil ==> pathOK(c))
+//@   ensures  [C03] moved: c != nil && old(len(c.path)) != 0 && old(cur(c).right) != nil ==> len(c.path) == old(len(c.path)) + 1 && cur(c) == old(cur(c).right)
+//@   ensures  [C03] off: c != nil && old(len(c.path)) != 0 && old(cur(c).right) == nil ==> len(c.path) == 0
+//@   ensures  [C03] prefix: c != nil ==> samePrefix(c, old(len(c.path)))
+//@   modifies c.path, backing(c.path)
+//@
+//@ func (*Cursor).Up
+//@   requires [C03] c != nil ==> pathOK(c)
+//@   ensures  [C03] same: result == c && (c != nil ==> pathOK(c))
+//@   ensures  [C03] moved: c != nil && old(len(c.path)) != 0 ==> len(c.path) == old(len(c.path)) - 1
+//@   ensures  [C03] prefix: c != nil ==> samePrefix(c, len(c.path))
+//@   modifies c.path
+//@
+//@ func (*Cursor).Min
+//@   requires [C03] c != nil ==> pathOK(c)
+//@   ensures  [C03] same: result == c && (c != nil ==> pathOK(c))
+//@   ensures  [C03] bottom: c != nil && old(len(c.path)) != 0 ==> len(c.path) >= old(len(c.path)) && cur(c).left == nil
+//@   ensures  [C03] leftward: c != nil ==> forall a int, b int :: {c.path[a], c.path[b]} old(len(c.path)) <= b && b == a + 1 && b < len(c.path) ==> c.path[b] == c.path[a].left
+//@   ensures  [C03] prefix: c != nil ==> samePrefix(c, old(len(c.path)))
+//@   ensures  [C03] invalid: c != nil && old(len(c.path)) == 0 ==> len(c.path) == 0
+//@   modifies c.path, backing(c.path)
+//@   loop 1: invariant [C03] shape: c != nil && len(c.path) >= old(len(c.path)) && len(c.path) > 0 && min == cur(c) && pathOK(c) && other_arrays_unchanged(c.path) && (c.path.base == old(c.path.base) || fresh(c.path))
+//@   loop 1: invariant [C03] prefix: samePrefix(c, old(len(c.path)))
+//@   loop 1: invariant [C03] leftward: forall a int, b int :: {c.path[a], c.path[b]} old(len(c.path)) <= b && b == a + 1 && b < len(c.path) ==> c.path[b] == c.path[a].left
+//@
+//@ func (*Cursor).Max
+//@   requires [C03] c != nil ==> pathOK(c)
+//@   ensures  [C03] same: result == c && (c != nil ==> pathOK(c))
+//@   ensures  [C03] bottom: c != nil && old(len(c.path)) != 0 ==> len(c.path) >= old(len(c.path)) && cur(c).right == nil
+//@   ensures  [C03] rightward: c != nil ==> forall a int, b int :: {c.path[a], c.path[b]} old(len(c.path)) <= b && b == a + 1 && b < len(c.path) ==> c.path[b] == c.path[a].right
+//@   ensures  [C03] prefix: c != nil ==> samePrefix(c, old(len(c.path)))
+//@   ensures  [C03] invalid: c != nil && old(len(c.path)) == 0 ==> len(c.path) == 0
+//@   modifies c.path, backing(c.path)
+//@   loop 1: invariant [C03] shape: c != nil && len(c.path) >= old(len(c.path)) && len(c.path) > 0 && max == cur(c) && pathOK(c) && other_arrays_unchanged(c.path) && (c.path.base == old(c.path.base) || fresh(c.path))
+//@   loop 1: invariant [C03] prefix: samePrefix(c, old(len(c.path)))
+//@   loop 1: invariant [C03] rightward: forall a int, b int :: {c.path[a], c.path[b]} old(len(c.path)) <= b && b == a + 1 && b < len(c.path) ==> c.path[b] == c.path[a].right
+//@
+//@ func (*Cursor).findNext
+//@   requires [C03] c != nil && len(c.path) > 0 && pathOK(c)
+//@   ensures  [C03] down: cur(c).right != nil ==> result.0 == cur(c).right && result.1 == -1
+//@   ensures  [C03] up: cur(c).right == nil ==> result.0 == nil && -1 <= result.1 && result.1 < len(c.path) - 1
+//@   ensures  [C03] turn: cur(c).right == nil && result.1 >= 0 ==> forall a int, b int :: {c.path[a], c.path[b]} a == result.1 && b == a + 1 ==> c.path[b] == c.path[a].left
+//@   ensures  [C03] skipped: cur(c).right == nil ==> forall a int, b int :: {c.path[a], c.path[b]} result.1 < a && b == a + 1 && b < len(c.path) ==> c.path[b] != c.path[a].left
+//@   loop 1: invariant [C03] idx: i == j + 1 && -1 <= j && j <= len(c.path) - 2
+//@   loop 1: invariant [C03] skipped: forall a int, b int :: {c.path[a], c.path[b]} j < a && b == a + 1 && b < len(c.path) ==> c.path[b] != c.path[a].left
+//@   loop 1: decreases j + 1
+//@
+//@ func (*Cursor).findPrev
+//@   requires [C03] c != nil && len(c.path) > 0 && pathOK(c)
+//@   ensures  [C03] down: cur(c).left != nil ==> result.0 == cur(c).left && result.1 == -1
+//@   ensures  [C03] up: cur(c).left == nil ==> result.0 == nil && -1 <= result.1 && result.1 < len(c.path) - 1
+//@   ensures  [C03] turn: cur(c).left == nil && result.1 >= 0 ==> forall a int, b int :: {c.path[a], c.path[b]} a == result.1 && b == a + 1 ==> c.path[b] == c.path[a].right
+//@   ensures  [C03] skipped: cur(c).left == nil ==> forall a int, b int :: {c.path[a], c.path[b]} result.1 < a && b == a + 1 && b < len(c.path) ==> c.path[b] != c.path[a].right
+//@   loop 1: invariant [C03] idx: i == j + 1 && -1 <= j && j <= len(c.path) - 2
+//@   loop 1: invariant [C03] skipped: forall a int, b int :: {c.path[a], c.path[b]} j < a && b == a + 1 && b < len(c.path) ==> c.path[b] != c.path[a].right
+//@   loop 1: decreases j + 1
+//@
+//@ func (*Cursor).HasNext
+//@   requires [C03] c != nil ==> pathOK(c)
+//@   ensures  [C03] invalid: c == nil || len(c.path) == 0 ==> !result
+//@   ensures  [C03] down: c != nil && len(c.path) != 0 && cur(c).right != nil ==> result
+//@
+//@ func (*Cursor).HasPrev
+//@   requires [C03] c != nil ==> pathOK(c)
+//@   ensures  [C03] invalid: c == nil || len(c.path) == 0 ==> !result
+//@   ensures  [C03] down: c != nil && len(c.path) != 0 && cur(c).left != nil ==> result
+//@
+//@ func (*Cursor).Next
+//@   requires [C03] c != nil ==> pathOK(c)
+//@   ensures  [C03] same: result == c && (c != nil ==> pathOK(c))
+//@   ensures  [C03] invalid: c != nil && old(len(c.path)) == 0 ==> len(c.path) == 0
+//@   ensures  [C03] down: c != nil && old(len(c.path)) != 0 && old(cur(c).right) != nil ==> len(c.path) > old(len(c.path)) && samePrefix(c, old(len(c.path))) && cur(c).left == nil
+//@   ensures  [C03] downFirst: c != nil && old(len(c.path)) != 0 && old(cur(c).right) != nil ==> forall a int, b int :: {c.path[a], c.path[b]} b == old(len(c.path)) && b == a + 1 ==> c.path[b] == c.path[a].right
+//@   ensures  [C03] downRest: c != nil && old(len(c.path)) != 0 && old(cur(c).right) != nil ==> forall a int, b int :: {c.path[a], c.path[b]} old(len(c.path)) < b && b == a + 1 && b < len(c.path) ==> c.path[b] == c.path[a].left
+//@   ensures  [C03] up: c != nil && old(len(c.path)) != 0 && old(cur(c).right) == nil ==> len(c.path) < old(len(c.path)) && samePrefix(c, len(c.path))
+//@   ensures  [C03] upTurn: c != nil && old(len(c.path)) != 0 && old(cur(c).right) == nil && len(c.path) > 0 ==> forall a int, b int :: {old(c.path[a]), old(c.path[b])} b == len(c.path) && b == a + 1 ==> old(c.path[b]) == old(c.path[a].left)
+//@   ensures  [C03] upSkipped: c != nil && old(len(c.path)) != 0 && old(cur(c).right) == nil ==> forall a int, b int :: {old(c.path[a]), old(c.path[b])} len(c.path) <= a && b == a + 1 && b < old(len(c.path)) ==> old(c.path[b]) != old(c.path[a].left)
+//@   modifies c.path, backing(c.path)
+//@   loop 1: invariant [C03] shape: c != nil && old(len(c.path)) != 0 && len(c.path) >= old(len(c.path)) && pathOK(c) && other_arrays_unchanged(c.path) && (c.path.base == old(c.path.base) || fresh(c.path))
+//@   loop 1: invariant [C03] prefix: samePrefix(c, old(len(c.path)))
+//@   loop 1: invariant [C03] cursor: (len(c.path) == old(len(c.path)) ==> min != nil && min == cur(c).right) && (len(c.path) > old(len(c.path)) ==> min == cur(c).left)
+//@   loop 1: invariant [C03] first: len(c.path) > old(len(c.path)) ==> forall a int, b int :: {c.path[a], c.path[b]} b == old(len(c.path)) && b == a + 1 ==> c.path[b] == c.path[a].right
+//@   loop 1: invariant [C03] rest: forall a int, b int :: {c.path[a], c.path[b]} old(len(c.path)) < b && b == a + 1 && b < len(c.path) ==> c.path[b] == c.path[a].left
+//@
+//@ func (*Cursor).Prev
+//@   requires [C03] c != nil ==> pathOK(c)
+//@   ensures  [C03] same: result == c && (c != nil ==> pathOK(c))
+//@   ensures  [C03] invalid: c != nil && old(len(c.path)) == 0 ==> len(c.path) == 0
+//@   ensures  [C03] down: c != nil && old(len(c.path)) != 0 && old(cur(c).left) != nil ==> len(c.path) > old(len(c.path)) && samePrefix(c, old(len(c.path))) && cur(c).right == nil
+//@   ensures  [C03] downFirst: c != nil && old(len(c.path)) != 0 && old(cur(c).left) != nil ==> forall a int, b int :: {c.path[a], c.path[b]} b == old(len(c.path)) && b == a + 1 ==> c.path[b] == c.path[a].left
+//@   ensures  [C03] downRest: c != nil && old(len(c.path)) != 0 && old(cur(c).left) != nil ==> forall a int, b int :: {c.path[a], c.path[b]} old(len(c.path)) < b && b == a + 1 && b < len(c.path) ==> c.path[b] == c.path[a].right
+//@   ensures  [C03] up: c != nil && old(len(c.path)) != 0 && old(cur(c).left) == nil ==> len(c.path) < old(len(c.path)) && samePrefix(c, len(c.path))
+//@   ensures  [C03] upTurn: c != nil && old(len(c.path)) != 0 && old(cur(c).left) == nil && len(c.path) > 0 ==> forall a int, b int :: {old(c.path[a]), old(c.path[b])} b == len(c.path) && b == a + 1 ==> old(c.path[b]) == old(c.path[a].right)
+//@   ensures  [C03] upSkipped: c != nil && old(len(c.path)) != 0 && old(cur(c).left) == nil ==> forall a int, b int :: {old(c.path[a]), old(c.path[b])} len(c.path) <= a && b == a + 1 && b < old(len(c.path)) ==> old(c.path[b]) != old(c.path[a].right)
+//@   modifies c.path, backing(c.path)
+//@   loop 1: invariant [C03] shape: c != nil && old(len(c.path)) != 0 && len(c.path) >= old(len(c.path)) && pathOK(c) && other_arrays_unchanged(c.path) && (c.path.base == old(c.path.base) || fresh(c.path))
+//@   loop 1: invariant [C03] prefix: samePrefix(c, old(len(c.path)))
+//@   loop 1: invariant [C03] cursor: (len(c.path) == old(len(c.path)) ==> max != nil && max == cur(c).left) && (len(c.path) > old(len(c.path)) ==> max == cur(c).right)
+//@   loop 1: invariant [C03] first: len(c.path) > old(len(c.path)) ==> forall a int, b int :: {c.path[a], c.path[b]} b == old(len(c.path)) && b == a + 1 ==> c.path[b] == c.path[a].left
+//@   loop 1: invariant [C03] rest: forall a int, b int :: {c.path[a], c.path[b]} old(len(c.path)) < b && b == a + 1 && b < len(c.path) ==> c.path[b] == c.path[a].right
+//@
+//@ func (*Cursor).Clone
+//@   requires [C03] c != nil ==> pathOK(c)
+//@   ensures  [C03] invalid: c == nil || len(c.path) == 0 ==> result == c
+//@   ensures  [C03] copy: c != nil && len(c.path) != 0 ==> result != nil && fresh(result) && pathOK(result) && len(result.path) == len(c.path) && fresh(result.path) && forall k int :: {result.path[k]} 0 <= k && k < len(c.path) ==> result.path[k] == c.path[k]
+//@   ensures  [C03] untouched: c != nil ==> len(c.path) == old(len(c.path)) && samePrefix(c, len(c.path))
+//@
+//@ func (*node).pathTo
+//@   role compare ord
+//@   ensures [C03] path: nodePath(result) && (n == nil <==> len(result) == 0) && (len(result) > 0 ==> result[0] == n)
+//@   ensures [C03] found: len(result) > 0 ==> ord(compare, key, result[len(result) - 1].X) == 0 || (ord(compare, key, result[len(result) - 1].X) < 0 && result[len(result) - 1].left == nil) || (ord(compare, key, result[len(result) - 1].X) > 0 && result[len(result) - 1].right == nil)
+//@   ensures [C03] steered: forall a int, b int :: {result[a], result[b]} 0 <= a && b == a + 1 && b < len(result) ==> (ord(compare, key, result[a].X) < 0 && result[b] == result[a].left) || (ord(compare, key, result[a].X) > 0 && result[b] == result[a].right)
+//@   loop 1: invariant [C03] path: nodePath(path) && (len(path) == 0 ==> cur == n) && (len(path) > 0 ==> path[0] == n) && (len(path) == 0 ==> cap(path) == 0) && (len(path) > 0 ==> fresh(path)) && old_arrays_unchanged(path)
+//@   loop 1: invariant [C03] next: len(path) > 0 ==> (ord(compare, key, path[len(path) - 1].X) < 0 && cur == path[len(path) - 1].left) || (ord(compare, key, path[len(path) - 1].X) > 0 && cur == path[len(path) - 1].right)
+//@   loop 1: invariant [C03] steered: forall a int, b int :: {path[a], path[b]} 0 <= a && b == a + 1 && b < len(path) ==> (ord(compare, key, path[a].X) < 0 && path[b] == path[a].left) || (ord(compare, key, path[a].X) > 0 && path[b] == path[a].right)
+//@
+//@ func (*Tree).Cursor
+//@   ensures [C03] absent: result == nil || (fresh(result) && len(result.path) > 0 && pathOK(result) && result.path[0] == t.root && ord(t.compare, cur(result).X, key) == 0)
+//@   ensures [C03] steered: result != nil ==> forall a int, b int :: {result.path[a], result.path[b]} 0 <= a && b == a + 1 && b < len(result.path) ==> (ord(t.compare, key, result.path[a].X) < 0 && result.path[b] == result.path[a].left) || (ord(t.compare, key, result.path[a].X) > 0 && result.path[b] == result.path[a].right)
+//@   requires t != nil
+//@
+//@ func (*Tree).Root
+//@   requires t != nil
+//@   ensures [C03] empty: t.root == nil ==> result == nil
+//@   ensures [C03] root: t.root != nil ==> result != nil && fresh(result) && len(result.path) == 1 && result.path[0] == t.root && pathOK(result)
